@@ -11,7 +11,7 @@ THEOREMS = {"SmVerif.Props.C11": [
     "SmVerif.Props.C05": ["SmVerif.C05.c05_parseVlq_safe", "SmVerif.C05.c05_parse_nonempty"]}
 TRUSTED = BASE_TRUST + ["model: lean/SmVerif/Model/Vlq.lean mirrors parse_vlq_segment_into / encode_vlq (vlq.rs) with i64 truncation at the 13th digit"]
 ASSUMPTIONS = ["i64 arithmetic of rustc/LLVM as documented (wrapping shl, arithmetic shr)", "encode_vlq is only defined for |n| < 2^62 (it loops forever beyond; outside the property)"]
-RULE = ("vlq.dec: every base64 string of length <= 3 (quick) / <= 4 (thorough), all 256 single bytes, random longer strings incl. 13/14-digit runs and foreign bytes; "
+RULE = ("vlq.dec: every base64 string of length <= 2 plus a 64x22x13 sample of length 3 (quick) / every string of length <= 4 (thorough; <= 3 when the quick command widens), all 256 single bytes, random longer strings incl. 13/14-digit runs and foreign bytes; "
         "vlq.enc: all 2^k, 2^k+-1 up to 2^62, random lists; vlq.range: checksummed exhaustive round trip over an integer window. "
         "non-trivial = the model result is ok with a non-zero value, or an error; distinct = distinct case line")
 EXHAUSTIVE = {"quick": False, "thorough": True}
